@@ -7,7 +7,7 @@ if ! git -C /repo diff --quiet; then echo "/repo has uncommitted changes"; exit 
 for d in seeded/${prefix}*/; do
   id=$(basename "$d"); prop=${id%%-*}
   if grep -q '"neutralised_by_fix"' "$d/meta.json"; then echo "$id neutralised"; continue; fi
-  if ! git -C /repo apply "$d/patch.diff" 2>/dev/null; then echo "$id PATCH-DOES-NOT-APPLY"; echo "patch does not apply to the current tree" > "$d/trial.txt"; continue; fi
+  if ! git -C /repo apply "/verif/$d/patch.diff" 2>/dev/null; then echo "$id PATCH-DOES-NOT-APPLY"; echo "patch does not apply to the current tree" > "$d/trial.txt"; continue; fi
   ./verif check "$prop" --budget "$budget" > /tmp/matrix_$id.out 2>&1; rc=$?
   git -C /repo checkout -- .
   { echo "check: ./verif check $prop --budget $budget (VERIF_SEED=${VERIF_SEED:-0}), /repo at $(git -C /repo log --format=%h -1) + patch.diff; exit code $rc"; grep -E "^(VIOLATION|INCONCLUSIVE|NOTE)|^  signature" /tmp/matrix_$id.out | grep -v "^VIOLATION" | head -12; } > "$d/trial.txt"
